@@ -488,7 +488,7 @@ func loadKnown(path string) *Known {
 
 // tier budgets: scenarios per worker
 func budget(prop, tier string) (count int, deadline float64) {
-	q := map[string]int{"C01": 5, "C02": 6, "C03": 6, "C04": 6, "C05": 30, "C06": 6, "C07": 40, "C08": 100, "C09": 1000, "C10": 1000, "C11": 60, "C12": 40, "C13": 150, "C14": 8, "C15": 1500, "C16": 600, "C18": 30, "C19": 600}
+	q := map[string]int{"C01": 5, "C02": 6, "C03": 6, "C04": 6, "C05": 30, "C06": 6, "C07": 20, "C08": 60, "C09": 1000, "C10": 1000, "C11": 60, "C12": 40, "C13": 100, "C14": 8, "C15": 1500, "C16": 600, "C18": 30, "C19": 600}
 	t := map[string]int{"C01": 80, "C02": 60, "C03": 80, "C04": 60, "C05": 150, "C06": 60, "C07": 600, "C08": 1500, "C09": 20000, "C10": 20000, "C11": 800, "C12": 400, "C13": 1500, "C14": 80, "C15": 20000, "C16": 8000, "C18": 300, "C19": 10000}
 	if tier == "thorough" {
 		if n, ok := t[prop]; ok {
